@@ -45,7 +45,7 @@ BRegChoices(i) == Choices(NumTokens - Card(BRegToks0(i)), AllToks \cup BRegToks0
 
 \* death between the commit of the registration and the tokens-file write
 BRegisterCrashT(i, T) ==
-    /\ L[i].phase = "init" /\ Basic(i) /\ kvok[i] /\ bud.crash > 0
+    /\ L[i].phase = "init" /\ Basic(i) /\ kvok[i] /\ bud.crash > 0 /\ EnvOK
     /\ ValidChoice(T, NumTokens - Card(BRegToks0(i)), AllToks \cup BRegToks0(i))
     /\ Put(i, BRegEntry(i, T))
     /\ SetL(i, [L0 EXCEPT !.phase = "dead"])
@@ -65,19 +65,21 @@ BVerifyT(i, T) ==
     /\ L[i].phase = "observing" /\ Basic(i) /\ Due(L[i].obsAt)
     /\ LET c == cfg[i]  b == BBase(i)  actual == b.toks IN
        IF ~kvok[i] THEN
-          /\ T = {} /\ SetL(i, [L[i] EXCEPT !.obsAt = clock + c.obs]) /\ UNCHANGED <<ring, rnil, file>>
+          /\ T = {} /\ SetL(i, [L[i] EXCEPT !.obsAt = clock + c.obs]) /\ UNCHANGED <<ring, rnil, file, okSince>>
        ELSE IF actual = L[i].toks THEN
           \* stable: the delegate is told (tokens file), the service goes Running with a new ticker
           /\ T = {}
           /\ IF Present(i) THEN UNCHANGED <<ring, rnil>> ELSE Put(i, b)
           /\ SetL(i, [Adopt(L[i], b) EXCEPT !.phase = "run", !.obsAt = -1, !.nextHb = Arm(c.hb)])
           /\ FileSet(i, IF b.toks # {} THEN b.toks ELSE file[i])
+          \* running() starts a NEW heartbeat ticker: a tick of the old one due now is dropped
+          /\ okSince' = [okSince EXCEPT ![i] = clock]
        ELSE
           /\ ValidChoice(T, NumTokens - Card(actual), AllToks)
           /\ Put(i, [b EXCEPT !.toks = actual \cup T, !.ts = clock])
           /\ SetL(i, [Adopt(L[i], [b EXCEPT !.toks = actual \cup T]) EXCEPT !.obsAt = clock + c.obs])
-          /\ UNCHANGED file
-    /\ actor' = i /\ UNCHANGED <<clock, kvok, cfg, okSince, bud>>
+          /\ UNCHANGED <<file, okSince>>
+    /\ actor' = i /\ UNCHANGED <<clock, kvok, cfg, bud>>
 
 BVerifyChoices(i) ==
     LET actual == BBase(i).toks IN
@@ -122,7 +124,7 @@ BDoReadOnly(i) ==
 \* StopAsync: while Starting (observing) the service fails without cleanup; otherwise
 \* LeaveOnStopping publishes LEAVING, then the instance is removed unless it is to be kept
 BStopReq(i) ==
-    /\ L[i].phase \in {"run", "observing"} /\ Basic(i) /\ L[i].pc = "idle" /\ L[i].res = "none" /\ bud.stop > 0
+    /\ L[i].phase \in {"run", "observing"} /\ Basic(i) /\ bud.stop > 0 /\ EnvOK /\ Calm
     /\ SetL(i, [L[i] EXCEPT !.phase = IF L[i].phase = "observing" THEN "off" ELSE "stopreq",
                             !.obsAt = -1, !.nextHb = -1])
     /\ bud' = [bud EXCEPT !.stop = @ - 1] /\ actor' = 0
@@ -147,10 +149,11 @@ LStep(i) == \/ ClassicStep(i) \/ BasicStep(i)
 
 States == {"PENDING", "JOINING", "ACTIVE", "LEAVING"}
 
-Env == \/ \E i \in Inst, c \in Cfgs : Start(i, c)
+Env == \/ \E i \in Inst : Start(i, cfg[i])
        \/ \E i \in Inst, s \in States : Request(i, "cs", s)
        \/ \E i \in Inst, b \in {"true", "false"} : Request(i, "ro", b)
-       \/ \E i, j \in Inst : i # j /\ Classic(i) /\ Present(i) /\ Request(i, "claim", ToString(j))
+       \* documented precondition of ClaimTokensFor: the source is LEAVING (and the claimer is registered)
+       \/ \E i, j \in Inst : i # j /\ Classic(i) /\ Present(i) /\ ring[j].st = "LEAVING" /\ Request(i, "claim", ToString(j))
        \/ \E i \in Inst : Return(i) \/ CheckReady(i) \/ StopReq(i) \/ BStopReq(i)
        \/ Tick \/ Wipe
        \/ \E i \in Inst, b \in BOOLEAN : SetKV(i, b)
@@ -187,7 +190,7 @@ Rank(s) == CASE s = "PENDING" -> 0 [] s = "JOINING" -> 1 [] s = "ACTIVE" -> 2 []
 \* published states move forward along pending, joining, active, leaving; removal from any; first
 \* publication in any; restart edges joining->pending and leaving->active
 EdgeOK(a, b) == \/ a = "ABSENT" \/ b = "ABSENT" \/ Rank(a) <= Rank(b)
-                \/ a = "JOINING" /\ b = "PENDING" \/ a = "LEAVING" /\ b = "ACTIVE"
+                \/ (a = "JOINING" /\ b = "PENDING") \/ (a = "LEAVING" /\ b = "ACTIVE")
 \* the basic lifecycler publishes what the delegate / the caller asks for: only registration
 \* (delegate's state), LEAVING on stopping and removal are its own initiative
 StateEdges ==
@@ -266,7 +269,8 @@ TokenUnique == \A i, j \in Inst : i # j => ring[i].toks \cap ring[j].toks = {}
 
 \* liveness (FairSpec, environment budgets exhausted eventually):
 \* a running auto-joining lifecycler ends ACTIVE with its full token count
-Settled(i) == L[i].st = "ACTIVE" /\ Present(i) /\ ring[i].st = "ACTIVE" /\ Card(ring[i].toks) = NumTokens
+Goal(i) == IF Classic(i) THEN "ACTIVE" ELSE cfg[i].regst
+Settled(i) == L[i].st = Goal(i) /\ Present(i) /\ ring[i].st = Goal(i) /\ Card(ring[i].toks) = NumTokens
 Recovers == \A i \in Inst : (L[i].phase \in {"init", "run", "observing"} /\ kvok[i]) ~>
                             (Settled(i) \/ L[i].phase \notin {"init", "run", "observing"} \/ ~kvok[i])
 RecoversNoCollision == [](bud.wipe = Bud0.wipe => TokenUnique)
